@@ -118,8 +118,77 @@ func init() {
 			return nil
 		},
 		"verif_assert": func(fr *frame, a []value) value {
-			fr.i.ex.Assert(fr.i.boolTerm(a[0]), argString(a[1]))
+			i := fr.i
+			if i.tree != nil {
+				// concurrent harness: the assertion becomes an event; whether it can
+				// fail is decided by the BMC over all schedules
+				i.ex.Reached[argString(a[1])]++
+				cond := i.boolTerm(a[0])
+				if cond.IsTrue() {
+					return nil
+				}
+				if !cond.IsFalse() && i.ex.Branch(cond) {
+					return nil
+				}
+				i.tree.emit(Event{Kind: "fail", Msg: argString(a[1]), Pos: i.tree.pos(fr)})
+				panic(abortPath{abortAfterFinding, argString(a[1])})
+			}
+			i.ex.Assert(i.boolTerm(a[0]), argString(a[1]))
 			return nil
+		},
+		"verif_chan_codec": func(fr *frame, a []value) value {
+			if fr.i.tree == nil {
+				return nil
+			}
+			ch, ok := a[0].(iface).v.(*channel)
+			if !ok {
+				unsupported("verif_chan_codec: not a channel")
+			}
+			fr.i.tree.codecs[ch] = chanCodec{enc: a[1].(iface).v, dec: a[2].(iface).v}
+			return nil
+		},
+		"verif_chan_name": func(fr *frame, a []value) value {
+			if ch, ok := a[0].(iface).v.(*channel); ok && ch != nil {
+				ch.label = argString(a[1])
+			}
+			return nil
+		},
+		"verif_shared": func(fr *frame, a []value) value {
+			// declares *p as memory shared between goroutines: plain loads and
+			// stores of it become visible (and race-checked) events
+			if fr.i.tree == nil {
+				return nil
+			}
+			p, ok := a[0].(iface).v.(*value)
+			if !ok || p == nil {
+				unsupported("verif_shared: not a pointer to a variable")
+			}
+			name := fr.i.tree.cellName(p, argString(a[1]))
+			fr.i.tree.shared[p] = name
+			return nil
+		},
+		"verif_ghost_add": func(fr *frame, a []value) value {
+			i := fr.i
+			name := argString(a[0])
+			if i.tree == nil {
+				// sequential harness: plain counter
+				if i.ghost == nil {
+					i.ghost = map[string]value{}
+				}
+				cur, _ := i.ghost[name].(int64)
+				cur += asInt64(a[1])
+				i.ghost[name] = cur
+				return cur
+			}
+			cell, ok := i.tree.ghost[name]
+			if !ok {
+				var v value = int64(0)
+				cell = &v
+				i.tree.ghost[name] = cell
+				i.tree.shared[cell] = "cell_ghost_" + sanitize(name)
+				i.tree.objs["cell_ghost_"+sanitize(name)] = &ObjInfo{Name: "cell_ghost_" + sanitize(name), Kind: "cell", Width: 64}
+			}
+			return i.tree.cellOp(fr, "add", cell, []value{a[1]}, false, "")
 		},
 		"verif_reach": func(fr *frame, a []value) value {
 			fr.i.ex.Reached["reach:"+argString(a[0])]++
